@@ -46,11 +46,12 @@ var pkgTypes = []string{tProvider, tConfiguration, tFunction}
 type doc struct {
 	// Kind is one of: meta:<Type>, crd, crdbeta, xrd, composition, mwc, vwc,
 	// unknown (a kind neither scheme knows), empty, comment.
-	Kind       string `json:"kind"`
-	Name       string `json:"name,omitempty"`
-	MetaAPI    string `json:"metaAPI,omitempty"`    // meta only: v1 | v1alpha1 | v1beta1
-	Constraint string `json:"constraint,omitempty"` // meta only: spec.crossplane.version ("" = none)
-	Pad        int    `json:"pad,omitempty"`        // bytes of padding carried in an annotation
+	Kind       string   `json:"kind"`
+	Name       string   `json:"name,omitempty"`
+	MetaAPI    string   `json:"metaAPI,omitempty"`    // meta only: v1 | v1alpha1 | v1beta1
+	Constraint string   `json:"constraint,omitempty"` // meta only: spec.crossplane.version ("" = none)
+	Pad        int      `json:"pad,omitempty"`        // bytes of padding carried in an annotation
+	Deps       []string `json:"deps,omitempty"`       // meta only: spec.dependsOn (provider packages, version >=0.1.0)
 }
 
 func (d doc) isMeta() bool { return strings.HasPrefix(d.Kind, "meta:") }
@@ -159,6 +160,13 @@ func (d doc) yaml() []byte {
 		spec := map[string]any{}
 		if d.Constraint != "" {
 			spec["crossplane"] = map[string]any{"version": d.Constraint}
+		}
+		if len(d.Deps) > 0 {
+			var l []any
+			for _, dep := range d.Deps {
+				l = append(l, map[string]any{"provider": dep, "version": ">=0.1.0"})
+			}
+			spec["dependsOn"] = l
 		}
 		if p := pad(d.Pad); p != nil {
 			m["metadata"].(map[string]any)["annotations"] = map[string]any{"verif/pad": p["verif/pad"]}
